@@ -651,6 +651,34 @@ class ScheduleMonitor:
             run.V("C05", f"{where}: components {sorted(tg)} changed, documented schedule allows only {sorted(allowed)}")
 
     def check_markers(self, seg, markers, exp, k):
+        """Marker-granular check with a coarse fall-back: if the per-update check reports something that the
+        iteration-granular check (same documented schedule, whole iteration as one interval) does not, the logging
+        is merely placed differently inside the iteration than this harness assumed - no violation."""
+        run = self.run
+        n0 = len(run.res.violations)
+        self._check_markers(seg, markers, exp, k)
+        new = run.res.violations[n0:]
+        if not new or any(v["clause"] in ("C11.d", "C06.f") or "observed update events" in v["detail"] for v in new):
+            return
+        exp_m = [e for e in exp if e[0] is not None]
+        n_events = sum(len(e[2]) for e in exp)
+        if n_events and len(exp) != 1:
+            return  # several chained target updates inside one iteration are not decidable at iteration granularity
+        allowed = set()
+        for _, al, _ in exp:
+            allowed |= al
+        n1 = len(run.res.violations)
+        ch = changed_from(seg[0], seg[-1])
+        if ch - allowed:
+            return
+        self.check_events(seg[0], seg[-1], [e for _, _, es in exp for e in es], k, ch)
+        if len(run.res.violations) > n1:
+            del run.res.violations[n1:]
+            return
+        del run.res.violations[n0:]
+        run.res.probe("logging_placed_differently_than_assumed")
+
+    def _check_markers(self, seg, markers, exp, k):
         run = self.run
         exp_m = [e for e in exp if e[0] is not None]
         obs_keys = [seg[m].label[1] for m in markers]
